@@ -10,6 +10,7 @@ import (
 	"github.com/hneemann/parser2/listMap"
 	"math"
 	"sort"
+	"sync"
 )
 
 // NewListConvert creates a list containing the given elements if the elements
@@ -59,24 +60,43 @@ func createSliceIterable(items []Value) ListProducer {
 
 // NewListFromIterable creates a list based on the given Iterable
 func NewListFromIterable(li ListProducer) *List {
-	return &List{iterable: li, itemsPresent: false, size: -1}
+	return NewListFromSizedIterable(li, -1)
 }
 
 // NewListFromSizedIterable creates a list based on the given Iterable.
 // In contrast to NewListFromIterable, this function is to be used if the
 // size of the iterable is known.
 func NewListFromSizedIterable(li ListProducer, size int) *List {
-	return &List{iterable: li, itemsPresent: false, size: size}
+	l := &List{itemsPresent: false, size: size}
+	// As soon as the list is evaluated, the stored items are used.
+	l.iterable = func(st funcGen.Stack[Value]) iterator.Producer[Value] {
+		if items, ok := l.getItems(); ok {
+			return createSliceIterable(items)(st)
+		}
+		return li(st)
+	}
+	return l
 }
 
 type ListProducer = func(funcGen.Stack[Value]) iterator.Producer[Value]
 
 // List represents a list of values
+// A list may be shared by several goroutines, e.g. if it is a constant of a
+// function which is evaluated concurrently. Therefore, the items are stored and
+// accessed only while holding the mutex; iterable and size are never modified.
 type List struct {
+	mu           sync.Mutex
 	items        []Value
 	itemsPresent bool
 	iterable     ListProducer
 	size         int
+}
+
+// getItems returns the items if they are already present
+func (l *List) getItems() ([]Value, bool) {
+	l.mu.Lock()
+	defer l.mu.Unlock()
+	return l.items, l.itemsPresent
 }
 
 func (l *List) ToMap() (Map, bool) {
@@ -145,7 +165,9 @@ func (l *List) ToList() (*List, bool) {
 }
 
 func (l *List) Eval(st funcGen.Stack[Value]) error {
-	if !l.itemsPresent {
+	if _, ok := l.getItems(); !ok {
+		// The mutex is not held while the items are created, because this may
+		// take long and involves calling closures.
 		var it []Value
 		for v, err := range l.iterable(st) {
 			if err != nil {
@@ -153,9 +175,12 @@ func (l *List) Eval(st funcGen.Stack[Value]) error {
 			}
 			it = append(it, v)
 		}
-		l.items = it
-		l.itemsPresent = true
-		l.iterable = createSliceIterable(it)
+		l.mu.Lock()
+		if !l.itemsPresent {
+			l.items = it
+			l.itemsPresent = true
+		}
+		l.mu.Unlock()
 	}
 	return nil
 }
@@ -223,7 +248,8 @@ func (l *List) ToSlice(st funcGen.Stack[Value]) ([]Value, error) {
 	if err != nil {
 		return nil, err
 	}
-	return l.items[0:len(l.items):len(l.items)], nil
+	items, _ := l.getItems()
+	return items[0:len(items):len(items)], nil
 }
 
 // CopyToSlice creates a slice copy of all elements
@@ -232,8 +258,9 @@ func (l *List) CopyToSlice(st funcGen.Stack[Value]) ([]Value, error) {
 	if err != nil {
 		return nil, err
 	}
-	co := make([]Value, len(l.items))
-	copy(co, l.items)
+	items, _ := l.getItems()
+	co := make([]Value, len(items))
+	copy(co, items)
 	return co, nil
 }
 
@@ -245,6 +272,7 @@ func (l *List) Append(st funcGen.Stack[Value]) (*List, error) {
 	if err != nil {
 		return nil, err
 	}
+	l.mu.Lock()
 	newList := append(l.items, st.Get(1))
 	// Guarantee a copy operation the next time append is called on this
 	// list, which is only a rare special case, as the new list is usually
@@ -252,12 +280,13 @@ func (l *List) Append(st funcGen.Stack[Value]) (*List, error) {
 	if len(l.items) != cap(l.items) {
 		l.items = l.items[:len(l.items):len(l.items)]
 	}
+	l.mu.Unlock()
 	return NewList(newList...), nil
 }
 
 func (l *List) SizeIfKnown() (int, bool) {
-	if l.itemsPresent {
-		return len(l.items), true
+	if items, ok := l.getItems(); ok {
+		return len(items), true
 	} else if l.size >= 0 {
 		return l.size, true
 	} else {
@@ -270,7 +299,8 @@ func (l *List) Size(st funcGen.Stack[Value]) (int, error) {
 	if err != nil {
 		return 0, err
 	}
-	return len(l.items), nil
+	items, _ := l.getItems()
+	return len(items), nil
 }
 
 func ToFunc(name string, st funcGen.Stack[Value], n int, args int) (funcGen.Function[Value], error) {
@@ -486,9 +516,9 @@ func (l *List) Merge(sta funcGen.Stack[Value]) (*List, error) {
 }
 
 func (l *List) First(st funcGen.Stack[Value]) (Value, error) {
-	if l.itemsPresent {
-		if len(l.items) > 0 {
-			return l.items[0], nil
+	if items, ok := l.getItems(); ok {
+		if len(items) > 0 {
+			return items[0], nil
 		}
 	} else {
 		for v, err := range l.iterable(st) {
@@ -499,9 +529,9 @@ func (l *List) First(st funcGen.Stack[Value]) (Value, error) {
 }
 
 func (l *List) Single(st funcGen.Stack[Value]) (Value, error) {
-	if l.itemsPresent {
-		if len(l.items) == 1 {
-			return l.items[0], nil
+	if items, ok := l.getItems(); ok {
+		if len(items) == 1 {
+			return items[0], nil
 		}
 	} else {
 		var found bool
@@ -525,9 +555,9 @@ func (l *List) Single(st funcGen.Stack[Value]) (Value, error) {
 }
 
 func (l *List) Last(st funcGen.Stack[Value]) (Value, error) {
-	if l.itemsPresent {
-		if len(l.items) > 0 {
-			return l.items[len(l.items)-1], nil
+	if items, ok := l.getItems(); ok {
+		if len(items) > 0 {
+			return items[len(items)-1], nil
 		}
 	} else {
 		var last Value
@@ -1393,7 +1423,7 @@ func (l *List) containsAllItems(st funcGen.Stack[Value], lookForList *List, fg *
 		return false, err
 	}
 
-	if l.itemsPresent && len(l.items) < len(lookFor) {
+	if items, ok := l.getItems(); ok && len(items) < len(lookFor) {
 		return false, nil
 	}
 
